@@ -51,6 +51,9 @@ def slices(tier):
     if not q:
         out += [
             # as_tensor(A[i,j]*v[j], (i,))[j]: indexing a component tensor with an index bound inside it
+            # the same hazard with an inner component tensor over TWO indices, the captured one being the second
+            Slice("ct2-in-cond", [U, F], {"index", "mul", "as_tensor", "abs", "lt", "cond"}, 13, idx=(10, 11, 12),
+                  levels=[{"lt"}, {"index"}, {"index"}, {"index"}, {"mul"}, {"mul"}, {"as_tensor"}, {"abs"}, {"cond"}, {"index"}, {"as_tensor"}, {"index"}, {"remove_ct"}], mikinds=("name", "fixed"), chain="semi", simulate=6000, depth=14, **kw),
             Slice("capture", [A, U], {"index", "mul", "as_tensor"}, 6, idx=(10, 11), levels=[{"index"}, {"index"}, {"mul"}, {"as_tensor"}, {"index"}, PASSES], mikinds=("name",), **kw),
             # as_tensor(conditional(f<0, 0*g[i], g[i]), (i,))[0]: zero with a free index below a component tensor
             Slice("zero-ct", [U, F], {"index", "lt", "mul", "cond", "as_tensor"}, 7, idx=(10,), lits=[LIT["zero"]], levels=[{"index"}, {"lt"}, {"mul"}, {"cond"}, {"as_tensor"}, {"index"}, PASSES], mikinds=("name", "fixed"), **kw),
